@@ -119,15 +119,15 @@ Definition c12_spec_int (lo hi : Z) (s : c12_str) : option Z :=
 (* separated tokens; blanks (isspace) for ranges, " \t\n\r" for vector/bitset (ParameterTree::split) *)
 Fixpoint c12_spec_tokens_by (f : ascii -> bool) (s cur : c12_str) : list c12_str :=
   match s with
-  | [] => if c12_is_nil cur then [] else [rev cur]
+  | [] => if c12_is_nil cur then [] else [rev_append cur []]
   | c :: r => if f c
-              then (if c12_is_nil cur then c12_spec_tokens_by f r [] else rev cur :: c12_spec_tokens_by f r [])
+              then (if c12_is_nil cur then c12_spec_tokens_by f r [] else rev_append cur [] :: c12_spec_tokens_by f r [])
               else c12_spec_tokens_by f r (c :: cur)
   end.
 Definition c12_spec_tokens (s : c12_str) : list c12_str := c12_spec_tokens_by c12_is_space s [].
 Definition c12_spec_tokens_ws (s : c12_str) : list c12_str := c12_spec_tokens_by c12_is_ws s [].
 Definition c12_spec_strip_ws (s : c12_str) : c12_str :=
-  rev (c12_dropwhile c12_is_ws (rev (c12_dropwhile c12_is_ws s))).
+  rev_append (c12_dropwhile c12_is_ws (rev_append (c12_dropwhile c12_is_ws s) [])) [].
 
 (* a token that is several integer texts written without a separator ("1-2"): the property does
    not say whether that is one malformed item or two items; the oracle abstains on it *)
